@@ -4,7 +4,9 @@
    to the shared buffered writer, flush, release; socket writes of any chunking,
    short writes and failures with bufio's sticky error.  [wrun (winit frames) ls]:
    the state after the label sequence ls (= a schedule) from the initial state. *)
-From G Require Import Base Writer.
+From Coq Require Import String List Bool.
+From G Require Import Base Writer AccessGen Access AccessProofs.
+Open Scope list_scope.
 Open Scope nat_scope.
 
 (* at every moment of every schedule the stream is whole frames - one per
@@ -35,3 +37,12 @@ Print Assumptions C05_mutex.
 Theorem C05_failure : forall s l s', werr s = true -> wstep s l = Some s' -> werr s' = true /\ wire s' = wire s.
 Proof. exact c05_failure_sticky. Qed.
 Print Assumptions C05_failure.
+
+(* the model's premise, checked on the access table regenerated from the Go source on every
+   run: every use of the connection's buffered writer holds the connection's writer mutex
+   (so the LTS, in which a frame is handed to the writer only by the mutex's holder, is the
+   shape of the code) *)
+Theorem C05_writer_only_under_mutex :
+  forallb (fun a => implb (uses_writer a) (existsb (String.eqb "conn.writerMu:W") (eff_locks gen_calls a))) gen_sites = true.
+Proof. exact writer_only_under_mutex. Qed.
+Print Assumptions C05_writer_only_under_mutex.
